@@ -1,2 +1,13 @@
 #!/bin/bash
-exit 0
+# Offline set-up: contracts library beside the repository's interpreter (git-ignored .deps).
+set -e
+cd "$(dirname "$0")"
+if [ ! -d .deps/icontract ]; then
+  /venv/bin/pip install -q --no-index --find-links /opt/veriftools/wheels --target .deps icontract jsonschema >/dev/null 2>&1 \
+    || /venv/bin/pip install --no-index --find-links /opt/veriftools/wheels --target .deps icontract jsonschema
+fi
+/venv/bin/python - <<'PY'
+import sys; sys.path.insert(0, ".deps")
+import icontract, jsonschema
+print("setup ok: icontract", icontract.__version__)
+PY
